@@ -34,6 +34,10 @@ BASES = [
     # last statement continued by a backslash, no line break at the end of the file; CR-only line ends
     'a = 1\rb = 2 \\\r# done',
     'def f():\n    a = 1\nb = 2 \\\n\\\n# done',
+    # the text ends inside an indented block, without a line break, with blanks / a comment after the last token (the end
+    # marker's prefix is then all that holds them)
+    'def f():\n    a\n    b  # x',
+    'class A:\n  def f(self):\n    x = 1\n    y = 2 \t',
 ]
 POOL = ['    x = 1', 'def h():', '  (', ')', '"""', 'else:', '        pass', '@d', 'class K: pass', '\tz', '    return', 'if 1:',
         "f'{", 'x = [', '# c', '', ' ', 'async def q():', '    \\', 'import a; b', 'async def r(): s.', '@t']
